@@ -378,7 +378,7 @@ def decorate(rng, scs):
             # members given as objects, as configuration dicts or as another indicator's settings -- mixed
             # within one Hexital (the registry must keep the order the caller gave)
             if rng.random() < 0.35:
-                sc["member_forms"] = [rng.choice(["obj", "obj", "dict", "settings"]) for _ in sc["inds"]]
+                sc["member_forms"] = [rng.choice(["obj", "obj", "dict", "settings", "used"]) for _ in sc["inds"]]
         mem = sc["inds"] + sc.get("late", [])
         tfs = [c.timeframe for c in mem if c.timeframe]
         for j, c in enumerate(mem):
@@ -417,7 +417,10 @@ def _scenarios(pid, tier, rng):
                 + fam_kinds(rng, pid, ALL_KINDS, k(80, 500), styles=DEGENERATE, twins=(), tf_share=1.0)
                 + fam_chain(rng, pid, k(60, 400), twins=(),
                             targets=("STDEV", "BBANDS", "KC", "STDEVTHRES", "RSI", "MACD", "ROC", "STOCH", "TSI",
-                                     "SMA", "EMA", "RMA", "WMA", "HMA")))
+                                     "SMA", "EMA", "RMA", "WMA", "HMA"))
+                # "calculating never raises" includes the other ways of calculating: recalculate,
+                # calculate_index (positive, negative, Hexital's default), on members with their own timeframe
+                + fam_maintenance(rng, pid, k(50, 300)))
     if pid == "C10":
         return fam_kinds(rng, pid, ALL_KINDS, k(300, 1800), twins=(), tf_share=0.3)
     if pid == "C01":
@@ -443,7 +446,7 @@ def _scenarios(pid, tier, rng):
                 # with a lifespan and no timeframe the recurrence still has to be that of the whole stream
                 + fam_manager(rng, pid, k(60, 300), has=(True,), lifes=(3, 5, 8), units=("N",), twins=(), tag="c"))
     if pid == "C15":
-        return (fam_manager(rng, pid, k(160, 1000), lifes=(1, 2, 3, 5, 8), fills=(False, True))
+        return (fam_manager(rng, pid, k(160, 1000), lifes=(0, 1, 2, 3, 5, 8, 0.5), fills=(False, True))
                 + fam_manager(rng, pid, k(160, 1000), lifes=(6, 8, 12, 20), twins=("untrimmed",),
                               kinds=("SMA", "EMA", "RSI", "STOCH", "ATR", "MACD", "BBANDS", "OBV"), tag="b")
                 + fam_survivors(rng, pid, k(90, 600)))
@@ -551,7 +554,7 @@ def grow_program(rng, sc, n, steps, ops, pre=None):
                             step = ("calculate_index", tgt, -1, "default")
         elif op == "add" and hexobj and late_left:
             i = late_left.pop(0)
-            step = ("add", i, rng.choice(["obj", "dict", "settings"]))
+            step = ("add", i, rng.choice(["obj", "dict", "settings", "used"]))
             dirty.add(i)
         elif op == "readd" and hexobj and sh.active:
             # registering an indicator that is already registered (e.g. re-applying the Hexital's own
@@ -590,7 +593,7 @@ def fam_maintenance(rng, pid, count):
                            rv=rng.choice([4, 4, 0, 1, 2, 3, 5]))
             sc = {"id": f"{pid}/ind/{cfg.kind}/{t}", "fam": "maint", "obj": "ind", "inds": [cfg],
                   "stream": make_stream(rng, n, "mixed", tf=cfg.timeframe), "twins": ["batch"],
-                  "clause_props": {"exc": ["C14"], "batch": ["C14"], "value": ["C14"]}}
+                  "clause_props": {"exc": [pid], "batch": [pid], "value": [pid]}}
             ops = [o for o in MAINT_OPS if o not in ("add", "remove")]
         else:
             tf = pick_tf(rng) if rng.random() < 0.35 else None
@@ -601,7 +604,7 @@ def fam_maintenance(rng, pid, count):
             sc = {"id": f"{pid}/hex/{'+'.join(c.kind for c in cfgs)}/{t}", "fam": "maint", "obj": "hex",
                   "inds": cfgs, "late": late, "hex": {}, "stream": make_stream(rng, n, "mixed", tf=tf),
                   "twins": ["final_batch"], "member_forms": ["obj"] * len(cfgs),
-                  "clause_props": {"exc": ["C14"], "batch": ["C14"], "value": ["C14"]}}
+                  "clause_props": {"exc": [pid], "batch": [pid], "value": [pid]}}
             ops = MAINT_OPS
         sc["names_fixed"] = True
         out.append(grow_program(rng, sc, n, rng.randint(5, 10), ops))
@@ -725,7 +728,7 @@ DICT_FIELDS = {"AROON": ["AROONU", "AROOND", "AROONOSC"], "MACD": ["MACD", "sign
 TOUCHES = ["str", "repr", "name", "settings", "reading_period", "candles_sum"]
 
 
-def read_batch(rng, sc, names, kinds, lens_hint, hexobj, touches=True, span="full"):
+def read_batch(rng, sc, names, kinds, lens_hint, hexobj, touches=True, span="full", only=None):
     """lens_hint: {indicator number: (length of its candle list, calculated up to the newest candle?)}
     (or a plain length for all); span: 0 = no index arguments, 1 = indices -1 / 0 only, "full" =
     indices range over the whole list"""
@@ -733,6 +736,8 @@ def read_batch(rng, sc, names, kinds, lens_hint, hexobj, touches=True, span="ful
 
     rd = []
     for i, (nm, kind) in enumerate(zip(names, kinds)):
+        if only is not None and i not in only:
+            continue        # not registered (yet)
         fields = [""] + DICT_FIELDS.get(kind, [])
         if isinstance(lens_hint, dict):
             L, done = lens_hint.get(i, (1, False))
@@ -815,12 +820,31 @@ def fam_reads(rng, pid, count, forms=("candle",), touches=True):
         regular = tf_regular(rng, tf) if tf else None
         st = make_stream(rng, n, style, tf=tf, regular=regular)
         pre, chunks = compositions(rng, n, (0, 1, 3), 3)
+        frac = pid == "C19" and rng.random() < 0.12
+        if frac:
+            # timestamps with a fraction of a second (feeds print them): the specification does not say
+            # what a sub-second stamp means for bucketing (the properties speak of second resolution), only
+            # that every encoding of the same candle data gives the same result -- datetime objects here,
+            # ISO strings in the twin run.  One candle a spacing, never two within the same second.
+            st = make_stream(rng, n, style, tf=tf, regular=(regular or 60))
+            st = [(ts + rng.choice([0, 0.25, 0.5, 0.75]),) + tuple(rest) for (ts, *rest) in st]
+            if rng.random() < 0.6:
+                st[0] = (int(st[0][0]) + 0.25,) + tuple(st[0][1:])
+            form = rng.choice(["candle", "dict", "list"])
+        # now and then the last member joins later (add_indicator on a Hexital that already holds candles)
+        late_i = len(cfgs) - 1 if hexobj and len(cfgs) >= 2 and rng.random() < 0.3 else None
         sc = {"id": f"{pid}/{'hex' if hexobj else 'ind'}/{'+'.join(kinds)}/{form}/{t}", "fam": "reads",
               "names_fixed": True,
-              "obj": "hex" if hexobj else "ind", "inds": cfgs, "hex": hexcfg, "stream": st, "form": form,
-              "twins": [], "member_forms": ["obj"] * len(cfgs), "single_unwrapped": rng.random() < 0.5,
+              "obj": "hex" if hexobj else "ind", "inds": cfgs if late_i is None else cfgs[:late_i],
+              "late": [] if late_i is None else [cfgs[late_i]], "hex": hexcfg, "stream": st, "form": form,
+              "twins": [], "member_forms": ["obj"] * (len(cfgs) if late_i is None else late_i),
+              "single_unwrapped": rng.random() < 0.5,
               "clause_props": {"exc": [pid], "stage": ["C19"], "def": ["C19"], "sideeffect": ["C19"],
                                "attrs": ["C19"], "args": ["C19"], "read": ["C20"]}}
+        if frac:
+            sc["twins"] = ["reform"]
+            sc["reform_to"] = rng.choice(["dict_iso", "candle_iso"])
+            sc["clause_props"] = dict(sc["clause_props"], stage=[], **{"def": [], "read": [], "value": [], "gap": []})
         # the program is grown against a live shadow run: index arguments range over the whole of each
         # indicator's own candle list as it is at that moment (the property: all in-range indices)
         from record import Session
@@ -829,10 +853,15 @@ def fam_reads(rng, pid, count, forms=("candle",), touches=True):
         tfs = [c.timeframe for c in cfgs] + [hexcfg.get("timeframe")]
         sh = Session(sc, base_for([x for x in tfs if x]))
 
+        added = [late_i is None]
+
+        def active():
+            return set(i for i in range(len(cfgs)) if i != late_i or added[0])
+
         def lens():
             try:
                 out = {}
-                for i in range(len(cfgs)):
+                for i in sorted(active()):
                     ind = sh.indicator(i)
                     cs = ind.candles
                     # has the indicator been calculated up to the newest candle?  (public state only)
@@ -854,18 +883,33 @@ def fam_reads(rng, pid, count, forms=("candle",), touches=True):
         L = lens() if alive else {}
         if pre >= 1 and L and all(v[0] >= 1 for v in L.values()):     # no reads on empty lists
             prog.append(("reads", read_batch(rng, sc, names, kinds, L, hexobj, touches,
-                                               span=rng.choice(["full", 0]))))
+                                               span=rng.choice(["full", 0]), only=active())))
         a = pre
         for k in chunks:
             prog.append(("append", a + 1, a + k))
             alive = alive and step(prog[-1])
             a += k
+            if alive and not added[0] and a >= n // 2:
+                # the late member is registered; its newest reading is refreshed first, then the rest is
+                # back-filled -- whatever order the readings were produced in, "no index" is the newest
+                prog.append(("add", late_i, rng.choice(["obj", "dict"])))
+                alive = step(prog[-1])
+                added[0] = True
+                if rng.random() < 0.6:
+                    prog.append(("calculate_index", names[late_i], -1, "fresh"))
+                    alive = alive and step(prog[-1])
+                prog.append(("calculate", names[late_i] if rng.random() < 0.5 else ""))
+                alive = alive and step(prog[-1])
+                L = lens() if alive else {}
+                if L and all(v[0] >= 1 for v in L.values()):
+                    prog.append(("reads", read_batch(rng, sc, names, kinds, L, hexobj, touches, only=active())))
+                continue
             L = lens() if alive else {}
             ok = bool(L) and all(v[0] >= 1 for v in L.values())
             if ok and rng.random() < 0.3:
                 # a maintenance call that changes no reading (C14) aimed at an older candle: whatever
                 # cursor the library keeps, every way of asking must still mean the same candle
-                i = rng.randrange(len(cfgs))
+                i = rng.choice(sorted(L))
                 n_i = L[i][0]
                 if n_i >= 2 and L[i][1]:
                     pos = rng.randrange(0, n_i - 1)
@@ -878,11 +922,11 @@ def fam_reads(rng, pid, count, forms=("candle",), touches=True):
                     L = lens() if alive else {}
                     ok = bool(L) and all(v[0] >= 1 for v in L.values())
                     if ok:
-                        prog.append(("reads", read_batch(rng, sc, names, kinds, L, hexobj, touches)))
+                        prog.append(("reads", read_batch(rng, sc, names, kinds, L, hexobj, touches, only=active())))
                     continue
             if ok and rng.random() < 0.7:
                 prog.append(("reads", read_batch(rng, sc, names, kinds, L, hexobj, touches,
-                                                   span=rng.choice(["full", "full", 1]))))
+                                                   span=rng.choice(["full", "full", 1]), only=active())))
         sc["prog"] = prog
         out.append(sc)
     return out
@@ -1367,6 +1411,12 @@ def fam_amorph(rng, pid, count, twins=("batch",)):
         if t % 2 == 0:
             cfg = amorph_cfg(rng)
             n = rng.randint(12, 18)
+            if t % 6 == 4:
+                # the wrapper has already produced readings on a list of its own, then joins a Hexital
+                out.append(hex_scenario(rng, f"{pid}/amorph/used/{cfg.fn}/{t}", "amorph", [cfg], n,
+                                        rng.choice(["walk", "mixed"]), twins, forms=["used"],
+                                        extra=rng.randint(1, 4) if "longer" in twins else 0))
+                continue
             out.append(ind_scenario(rng, f"{pid}/amorph/{cfg.fn}/{t}", "amorph", cfg, n, rng.choice(["walk", "mixed"]),
                                     twins, extra=rng.randint(1, 4) if "longer" in twins else 0))
         else:
@@ -1375,7 +1425,7 @@ def fam_amorph(rng, pid, count, twins=("batch",)):
             cfg = amorph_cfg(rng, live)
             n = rng.randint(14, 20)
             sc = hex_scenario(rng, f"{pid}/amorph/{src.kind}>{cfg.fn}/{t}", "amorph", [src, cfg], n,
-                              rng.choice(["walk", "mixed"]), twins, forms=["obj", rng.choice(["obj", "dict"])],
+                              rng.choice(["walk", "mixed"]), twins, forms=["obj", rng.choice(["obj", "dict", "used"])],
                               extra=rng.randint(1, 4) if "longer" in twins else 0)
             out.append(sc)
     for sc in out:
